@@ -994,7 +994,17 @@ class Interp:
                 self.binders.pop(name, None)
             else:
                 self.binders[name] = saved
-        return VBool(z3.Or(outs) if outs else z3.BoolVal(False))
+        if not outs:
+            return VBool(False)
+        if len(outs) == 1:
+            return VBool(outs[0])
+        disj = z3.Or(outs)
+        if not self.assume_mode:
+            # Path.prove1 tries the candidates one at a time before the whole disjunction
+            if not hasattr(self.path, "witness_ors"):
+                self.path.witness_ors = {}
+            self.path.witness_ors[disj.get_id()] = (disj, outs)
+        return VBool(disj)
 
     def spec_implies(self, n, env):
         pol = self.polarity
@@ -1171,6 +1181,15 @@ class Interp:
         if isinstance(s.value, ast.Constant):
             return
         self.ev(s.value, env)
+        c = self.cur_contract
+        if c is not None and getattr(c, "asserts", None) and len(self.fn_stack) == 1 and isinstance(s.value, ast.Call):
+            # cut point after an expression statement `x.m(...)`: asserts key "call:x.m"
+            key = "call:" + ast.unparse(s.value.func)
+            for i, cl in enumerate(c.asserts.get(key, [])):
+                if cl.startswith("ghost:"):
+                    self.exec_ghost(cl[6:], env)
+                    continue
+                self.path.prove(self.eval_spec(cl, env), "%s/assert-after:%s#%d" % (c.short, key, i), "assert", where=cl)
 
     def ex_Pass(self, s, env):
         pass
@@ -1700,7 +1719,13 @@ class Interp:
             return
         if not any(isinstance(x, ast.Call) for st in list(s.body) + list(s.orelse) for x in ast.walk(st)):
             return
-        for nm in sorted(self.ver.ghost_written_names()):
+        names = set(self.ver.ghost_written_names())
+        # accumulator-style ghosts of the contract under verification ("empty"-initialised) are always treated as
+        # written (ghost builtins such as map_set_all(m, ...) mutate an argument without a syntactic store)
+        cc = self.cur_contract
+        if cc is not None:
+            names |= {g for g, (_, init) in cc.ghost.items() if init == "empty"}
+        for nm in sorted(names):
             cur = genv.vars.get(nm)
             if cur is None:
                 continue
